@@ -1126,6 +1126,71 @@ def rule_r12(prog, res):
               'served to another (C12-R5)', 'C12', c12.rule_r5, prog, Result)
 
 
+# ------------------------------------------------------------------ R13
+def rule_r13(prog, res):
+    res.rule('R13', 'flat (HttpRpc) documents: the occurrence counter key '
+             'identifies an array element by the index the client wrote, '
+             'never by its position in the list being built')
+    f = prog.cls(SIMPLE).methods.get('simple_dict_to_object')
+    if f is None:
+        raise AnalysisError('SimpleDictDocument.simple_dict_to_object',
+                            'not found')
+    # variables composing the counter key
+    keyvars = set()
+    for a in walk_no_defs(f.node):
+        if isinstance(a, ast.Assign) and any(
+                isinstance(t, ast.Name) and t.id == 'cfreq_key'
+                for t in a.targets):
+            keyvars |= {x.id for x in ast.walk(a.value)
+                        if isinstance(x, ast.Name)} - {'cfreq_key'}
+    res.floor('R13', 'variables composing the counter key', len(keyvars), 2)
+    # transitive origins of those variables
+    deps = {}
+    for a in walk_no_defs(f.node):
+        if isinstance(a, ast.Assign):
+            pairs = []
+            for t in a.targets:
+                if isinstance(t, ast.Tuple) and isinstance(
+                        a.value, ast.Tuple) and len(t.elts) == len(
+                        a.value.elts):
+                    pairs.extend(zip(t.elts, a.value.elts))
+                else:
+                    pairs.append((t, a.value))
+            for t, v in pairs:
+                names = {x.id for x in ast.walk(v)
+                         if isinstance(x, ast.Name)}
+                for tt in ast.walk(t):
+                    if isinstance(tt, ast.Name) and isinstance(
+                            tt.ctx, ast.Store):
+                        deps.setdefault(tt.id, set()).update(names)
+    positional = {'cidx', '_m', 'ninst', 'idxmap'}
+    bad = {}
+    for v in sorted(keyvars):
+        seen, todo = set(), [v]
+        while todo:
+            x = todo.pop()
+            for d in deps.get(x, ()):
+                if d not in seen:
+                    seen.add(d)
+                    todo.append(d)
+        hit = seen & positional
+        res.ob('R13', f.where, 'counter key component %s derives from %s' % (
+            v, sorted(seen & (positional | {'indexes'})) or 'constants'),
+            'VIOLATED' if hit else 'ok')
+        if hit:
+            bad[v] = hit
+    for v, hit in bad.items():
+        res.finding('R13', 'SimpleDictDocument.simple_dict_to_object|'
+                    'counter-key|%s' % v, f.where,
+                    'the occurrence counter key takes %s from %s, the '
+                    'position of the element in the list under '
+                    'construction: positions shift when a lower index '
+                    'arrives after a higher one (p[10] sorts before p[2]), '
+                    'so two elements share one counter and min/max_occurs '
+                    'of their members are judged on the wrong totals' % (
+                        v, sorted(hit)))
+
+
 def run(prog, res, tier):
     res.run_rule(rule_r1, prog, res)
     res.run_rule(rule_r2, prog, res)
@@ -1139,6 +1204,7 @@ def run(prog, res, tier):
     res.run_rule(rule_r10, prog, res)
     res.run_rule(rule_r11, prog, res)
     res.run_rule(rule_r12, prog, res)
+    res.run_rule(rule_r13, prog, res)
 
 
 _X = 'spyne/protocol/xml.py'
@@ -1152,6 +1218,12 @@ _I = 'spyne/protocol/_inbase.py'
 _SI = 'spyne/protocol/dictdoc/simple.py'
 
 MUTANTS = [
+    Mutant('counter-key-by-position', 'R13', 'fire',
+           'spyne/protocol/dictdoc/simple.py',
+           in_func('SimpleDictDocument.simple_dict_to_object',
+                   "                        cinst = ninst[cidx]\n",
+                   "                        cinst = ninst[cidx]\n"
+                   "                        nidx = cidx\n"), 'counter-key'),
     Mutant('min-len-skips-empty', 'R10', 'fire',
            'spyne/model/primitive/string.py',
            in_func('Unicode.validate_string', "and (value is None or (",
